@@ -1,6 +1,6 @@
 (* C09 — Rules hold on every reported row and fire on their schedule. *)
 From Coq Require Import ZArith Reals List Bool Arith Sorted.
-From BS Require Import Base.Arith Model.Term Model.Propensity Model.Interface Model.Rules Model.Random Model.SSA Proofs.RuleProofs Proofs.RuleCount Proofs.RuleRows Proofs.VolumeRuleCount Proofs.LineageRuleCount Proofs.DelayRuleCount Proofs.DvRuleCount Proofs.RuleSchedule Model.Queue Model.Splitters Model.Lineage Base.CyPrelude Gen.RulesGen Proofs.TieRules.
+From BS Require Import Base.Arith Model.Term Model.Propensity Model.Interface Model.Rules Model.Random Model.SSA Proofs.RuleProofs Proofs.RuleCount Proofs.RuleRows Proofs.VolumeRuleCount Proofs.LineageRuleCount Proofs.DelayRuleCount Proofs.DvRuleCount Proofs.RuleSchedule Model.Queue Model.Splitters Model.Lineage Base.CyPrelude Gen.RulesGen Proofs.TieRules Gen.RuleOpsGen Proofs.TieRuleOps.
 Import ListNotations.
 
 (* Expression evaluation depends only on the species the expression reads (any arithmetic). *)
@@ -205,6 +205,32 @@ Theorem C09_source_passes :
   gen_execute_volume_rule_passes = ["state"; "params"; "volume"; "time"; "dt"]%string.
 Proof. exact tie_rule_passes. Qed.
 
+(* ... and the OPERATIONS of the three rule classes (AdditiveAssignmentRule.rule_operation; GeneralAssignmentRule and GeneralODERule:
+   rule_operation and rule_volume_operation) regenerated from types.pyx (Gen/RuleOpsGen.v, tools/tr_ruleops.py) are the model's
+   rule_operation, for any arithmetic; the rule's right-hand side object is an oracle there, instantiated with the model's expression
+   evaluator (without / with the volume).  param_flag is 1 for a parameter target, 0 for a species target. *)
+Theorem C09_source_operations :
+  forall F (A : Arith F) fr dest pf (rhs : term F) x p V t dt,
+  gen_GeneralAssignmentRule_rule_operation (fun x p t => teval A None x p t rhs) A
+     {| GeneralAssignmentRule_dest_index := dest; GeneralAssignmentRule_frequency_flag := fr; GeneralAssignmentRule_param_flag := flag_of pf |} x p t dt
+    = rule_operation A (mkRule fr dest (RAssign pf rhs)) None x p t dt /\
+  gen_GeneralAssignmentRule_rule_volume_operation (fun x p V t => teval A (Some V) x p t rhs) A
+     {| GeneralAssignmentRule_dest_index := dest; GeneralAssignmentRule_frequency_flag := fr; GeneralAssignmentRule_param_flag := flag_of pf |} x p V t dt
+    = rule_operation A (mkRule fr dest (RAssign pf rhs)) (Some V) x p t dt /\
+  gen_GeneralODERule_rule_operation (fun x p t => teval A None x p t rhs) A
+     {| GeneralODERule_dest_index := dest; GeneralODERule_frequency_flag := fr; GeneralODERule_param_flag := flag_of pf |} x p t dt
+    = rule_operation A (mkRule fr dest (ROde pf rhs)) None x p t dt /\
+  gen_GeneralODERule_rule_volume_operation (fun x p V t => teval A (Some V) x p t rhs) A
+     {| GeneralODERule_dest_index := dest; GeneralODERule_frequency_flag := fr; GeneralODERule_param_flag := flag_of pf |} x p V t dt
+    = rule_operation A (mkRule fr dest (ROde pf rhs)) (Some V) x p t dt.
+Proof. exact @source_rule_operations. Qed.
+Theorem C09_source_additive :
+  forall F (A : Arith F) fr dest srcs vol x p t dt, fofZ A 0 = f0 A ->
+  (gen_AdditiveAssignmentRule_rule_operation A
+     {| AdditiveAssignmentRule_dest_index := dest; AdditiveAssignmentRule_frequency_flag := fr; AdditiveAssignmentRule_species_source_indices := srcs |} x p t dt, p)
+  = rule_operation A (mkRule fr dest (RAdditive srcs)) vol x p t dt.
+Proof. exact @tie_additive. Qed.
+
 Print Assumptions C09_eval_frame.
 Print Assumptions C09_assignment_fixpoint.
 Print Assumptions C09_rows_are_rule_applied.
@@ -225,3 +251,5 @@ Print Assumptions C09_lineage_dt_rules_once_per_step.
 Print Assumptions C09_lineage_dt_rules_next_iteration.
 Print Assumptions C09_source_firing.
 Print Assumptions C09_source_passes.
+Print Assumptions C09_source_operations.
+Print Assumptions C09_source_additive.
